@@ -390,7 +390,6 @@ func typeRoundTrip(c px.Context, t px.Type) core.Result {
 //	                   text format (Go durations, Go time stamps, merged version ranges, URI hashes), which the creator does not read
 //	lazy-type          Init, Like: resolved lazily; printing may raise
 //	nominal-type       Object, TypeSet, aliases, TypeReference: print as a name (or compare by identity)
-//	runtime-pattern-without-name  a Runtime with a pattern and an empty name: printed as (runtime, pattern), refused by the creator
 //	callable-block     a Callable whose block position holds something that is not a Callable, or whose parameters hold
 //	                   Unit (dropped when printing) or start with a Tuple (read back as the whole parameter tuple)
 var exoticGroups = []struct {
@@ -401,7 +400,6 @@ var exoticGroups = []struct {
 	{"lazy-type", []string{"Init", "Like"}},
 	{"nominal-type", []string{"Object", "TypeSet", "TypeAlias", "TypeReference"}},
 	{"callable-block", []string{"CallableBlock"}},
-	{"runtime-pattern-without-name", []string{"RuntimePatternWithoutName"}},
 }
 
 // typeClass refines a failure class by what in the type is known to be unrepresentable.
@@ -422,16 +420,6 @@ func typeClass(t px.Type, dflt string) string {
 			if degenerateCallable(x) {
 				found["CallableBlock"] = true
 			}
-		case *types.RuntimeType:
-			// a pattern without a name: printed as (runtime, pattern), which the creator refuses
-			func() {
-				defer func() { _ = recover() }()
-				if ps := x.Parameters(); len(ps) == 2 {
-					if _, ok := ps[1].(*types.RegexpType); ok {
-						found["RuntimePatternWithoutName"] = true
-					}
-				}
-			}()
 		case px.TypeSet:
 			found["TypeSet"] = true
 		case px.ObjectType:
